@@ -34,8 +34,8 @@ class Case(object):
                 PURITY_BREAKS.append({'case': self.show(), 'what': bad, 'data': self.data()})
         if holder:
             bad = _aliasing(holder[0], _BUILT)
-            if bad and len(PURITY_BREAKS) < 20:
-                PURITY_BREAKS.append({'case': self.show(), 'what': bad, 'data': self.data()})
+            if bad and len(ALIAS_BREAKS) < 20:
+                ALIAS_BREAKS.append({'case': self.show(), 'what': bad, 'data': self.data()})
         del _BUILT[:]
         return res
 
@@ -51,7 +51,8 @@ class Case(object):
 # that Case.impl() can verify, after the call, that the implementation left it
 # unchanged (the validity condition of a functional model; C16, first sentence).
 _BUILT = []
-PURITY_BREAKS = []
+PURITY_BREAKS = []     # an input object was modified
+ALIAS_BREAKS = []      # a result shares a provenance map/list with an input (decided by C16 only)
 
 
 def _build(d, upgraded=True):
@@ -349,6 +350,7 @@ def report_purity(rep):
         rep.corr_break('inputs-unchanged (functional model validity)', pb['case'], 'inputs unchanged, result not aliased', pb['what'])
     n = len(PURITY_BREAKS)
     del PURITY_BREAKS[:]
+    del ALIAS_BREAKS[:]
     return n
 
 
